@@ -236,11 +236,11 @@ func c17Entry(c *Ctx) {
 		return false, false
 	})
 	mayTrue := func(in ssa.Instruction) bool {
-		ret, ok := in.(*ssa.Return)
+		ret, ok := core.AsReturn(in)
 		if !ok || len(ret.Results) != 1 {
 			return false
 		}
-		b, isC := core.ConstBool(core.ResolveLocalLoad(ret.Results[0]))
+		b, isC := core.ConstBool(core.ResolveLocalLoad(core.Res(ret, 0)))
 		return !isC || b
 	}
 	off, ns := core.UnguardedSinks(pm, mayTrue, gMatch)
